@@ -303,6 +303,8 @@ def build(recipe, env):
         op = tuple(op)
         if op[0] == "her":
             c.herald(op[1], op[2], op[3]); r.herald(op[1], op[2], op[3])
+        elif op[0] == "her1":                      # single-mode form: output defaults to the input mode
+            c.herald(op[1], op[2]); r.herald(op[1], op[2], op[2])
         elif op[0] == "add":
             s, sr = make_sub(op[1], env)
             c.add(s, op[2], group=op[3]); r.add(sr, op[2])
@@ -352,6 +354,8 @@ def emulator_family(env, tier="quick"):
         # internal ancillas from heralded sub-circuits (+ an external herald next to them)
         fam.append({"name": "n%d/sub_h3mid" % n, "n": n,
                     "ops": [("add", "h3mid", 0, False), ("bs", 0, n - 1, env.R[1], "Rx", 0)]})
+        fam.append({"name": "n%d/sub_h3io+her1" % n, "n": n,
+                    "ops": [("add", "h3io", 0, False), ("bs", 0, n - 1, env.R2, "H", 0), ("her1", 1, n - 1)]})
         fam.append({"name": "n%d/sub_lossy+her" % n, "n": n,
                     "ops": [("bs", 0, 1, env.R2, "H", 0), ("add", "lossy", n - 2, False),
                             ("loss", 0, g), ("her", 1, 0, 1)]})
